@@ -143,4 +143,104 @@ theorem node_account_check_counterexample : ¬ FullStatementNodeKeepsAccountsUni
   rw [hacc] at this
   exact absurd this (by decide)
 
+/-! ## `GetValidatorsStake` and `RemoveUnusedValidator` -/
+
+theorem validatorsStake_fold (cfg : Cfg) (st : State) (ms : List Bytes) (acc : Nat × List (Bytes × Nat)) (hacc : acc.1 < 2 ^ 64) :
+    (ms.foldl (fun acc id =>
+      let s := u64 ((st.live .val).get (slotStake cfg id))
+      if s = 0 then acc
+      else ((acc.1 + s) % 2 ^ 64, mapAdd acc.2 (toAddr ((st.live .val).get (slotAcct cfg id))) s)) acc).1
+      = (acc.1 + (ms.map (stakeAt cfg st .val)).sum) % 2 ^ 64 := by
+  induction ms generalizing acc with
+  | nil => simp [Nat.mod_eq_of_lt hacc]
+  | cons id ms ih =>
+    simp only [List.foldl_cons, List.map_cons, List.sum_cons]
+    by_cases hz : u64 ((st.live .val).get (slotStake cfg id)) = 0
+    · simp only [hz, if_true]
+      rw [ih acc hacc]
+      have : stakeAt cfg st .val id = 0 := hz
+      rw [this]; simp
+    · simp only [hz, if_false]
+      rw [ih _ (Nat.mod_lt _ (by decide))]
+      have : stakeAt cfg st .val id = u64 ((st.live .val).get (slotStake cfg id)) := rfl
+      rw [this]
+      simp only
+      omega
+
+/-- Full strength: the total `GetValidatorsStake` returns for a member list is the (`uint64`) sum of the stakes the
+    validator registry records for them (members without stake contribute nothing). -/
+theorem validatorsStake_total (cfg : Cfg) (st : State) (ms : List Bytes) :
+    (validatorsStake cfg st ms).1 = (ms.map (stakeAt cfg st .val)).sum % 2 ^ 64 := by
+  unfold validatorsStake
+  rw [validatorsStake_fold cfg st ms (0, []) (by decide)]
+  simp
+
+example : (validatorsStake toyCfg stNode [[0x11], [0x22], [0x11]]).1 = 1600 := by decide
+
+theorem removeMiner_other (cfg : Cfg) (st : State) (id acc : Bytes) (l : Nat) :
+    (removeMiner cfg st id acc typeValidator l).live .prop = st.live .prop ∧
+    (removeMiner cfg st id acc typeValidator l).live .zero = st.live .zero ∧
+    (removeMiner cfg st id acc typeValidator l).bal = st.bal ∧ (removeMiner cfg st id acc typeValidator l).escrow = st.escrow ∧
+    (removeMiner cfg st id acc typeValidator l).pending = st.pending ∧ (removeMiner cfg st id acc typeValidator l).pk = st.pk := by
+  have hd : dbOfType typeValidator = .val := by decide
+  unfold removeMiner
+  rw [hd]
+  split <;> simp [State.write, State.setLive]
+
+/-- `RemoveUnusedValidator` touches the validator registry only: proposers, balances, escrow, the block's refund
+    context and the key cache are untouched — in particular NOTHING is refunded for the stakes it removes (robin-only
+    house-keeping at Proposal010Block / Proposal019Block; documented quirk, not reachable on mainnet). -/
+theorem purge_touches_validators_only (cfg : Cfg) (st : State) (white : List Bytes) :
+    (removeUnusedValidator cfg st white).live .prop = st.live .prop ∧ (removeUnusedValidator cfg st white).bal = st.bal ∧
+    (removeUnusedValidator cfg st white).escrow = st.escrow ∧ (removeUnusedValidator cfg st white).pending = st.pending := by
+  unfold removeUnusedValidator
+  generalize ((iter cfg st .val).filter (fun m => m.status = statusNormal ∧ m.id ∉ white)) = ms
+  induction ms generalizing st with
+  | nil => exact ⟨rfl, rfl, rfl, rfl⟩
+  | cons m ms ih =>
+    simp only [List.foldl_cons]
+    obtain ⟨h1, h2, h3, h4⟩ := ih (removeMiner cfg st m.id m.account typeValidator 0)
+    obtain ⟨g1, _, g3, g4, g5, _⟩ := removeMiner_other cfg st m.id m.account 0
+    exact ⟨h1.trans g1, h2.trans g3, h3.trans g4, h4.trans g5⟩
+
+/-- What it does to the validators: with no whitelist the committed validator 0x11 of `stNode` is gone, its 800 tokens
+    of stake with it, and no balance or escrow entry appears. -/
+example : getMinerById toyCfg (removeUnusedValidator toyCfg stNode []) .val [0x11] = none ∧
+    stakeAt toyCfg (removeUnusedValidator toyCfg stNode []) .val [0x11] = 0 ∧
+    (getMinerById toyCfg (removeUnusedValidator toyCfg stNode [[0x11]]) .val [0x11]).isSome = true ∧
+    balTotal (removeUnusedValidator toyCfg stNode []) = balTotal stNode := by decide
+
+/-! ## the two arithmetic hypotheses of the conservation theorems, refuted without them -/
+
+/-- "What is debited for a stake is the stake" (needed by `lock_conservation_*`, which assume stake < 2^53). -/
+def FullStatementDebitExact : Prop := ∀ s, s ≤ maxU64 → stakeWei s = s * wei
+
+/-- False of the code: the debit goes through `float64(stake)`; 2^53+1 tokens are debited as 2^53. Replayed on the real
+    code by corpus 04/06 (payer with 2^120 wei) and reported as `outside_hypothesis` by the searcher: not reachable while
+    fewer than 2^53 tokens exist. -/
+theorem debit_exact_counterexample : ¬ FullStatementDebitExact := by
+  intro h
+  exact absurd (h (2 ^ 53 + 1) (by decide)) (by decide)
+
+def richState : State := { State.empty 100 with bal := [(addr1, 2 ^ 130)] }
+
+/-- "An accepted add-stake of `delta` raises the recorded stake by `delta`" (the run theorems assume no `uint64` wrap). -/
+def FullStatementAddRaisesStake : Prop :=
+  ∀ cfg st src id delta d, C20.Reachable cfg st → (runTx cfg st (.add src id delta)).1 = "ok" →
+    stakeAt cfg st d id ≤ stakeAt cfg (runTx cfg st (.add src id delta)).2 d id
+
+/-- False of the code: `miner.Stake + delta` wraps (the `< 0` test on a `uint64` never fires). Witness: stake 400,
+    add 2^64 − 400 → stake 0. Needs a payer holding ≥ 1.8·10^37 wei: same unreachable corner as above. -/
+theorem add_wraps_counterexample : ¬ FullStatementAddRaisesStake := by
+  intro h
+  have hr : C20.Reachable toyCfg (run toyCfg richState [.tx (.apply addr1 [0x11] 0 400 [] [1] [1]), .endBlock 101]) :=
+    ⟨100, _, [.tx (.apply addr1 [0x11] 0 400 [] [1] [1]), .endBlock 101], by
+      intro o ho
+      simp only [List.mem_cons, List.not_mem_nil, or_false] at ho
+      rcases ho with rfl | rfl
+      · exact ⟨by decide, by decide⟩
+      · trivial, rfl⟩
+  have := h toyCfg _ addr1 [0x11] (2 ^ 64 - 400) .val hr (by decide)
+  exact absurd this (by decide)
+
 end Rangers.Props.C20D
